@@ -519,6 +519,9 @@ func (s *Session) lockOp(fr *Frame, name string, args []Val, st *State) Val {
 					s.note("%s: at the acquisition of %s the locations {%s} are forgotten (other threads may have changed them while the lock was not held)", fr.fn.String(), al.Lock, strings.Join(al.Items, ", "))
 				}
 			}
+			if !st.Locks[id] && !st.Locks[id+":r"] {
+				s.interfereAtLock(fr, id, st, nil)
+			}
 			if strings.HasSuffix(name, ".RLock") {
 				st.Locks[id+":r"] = true // shared: excludes writers only
 			} else {
